@@ -115,8 +115,11 @@ SEMANTIC = {
     'unknown-configurable': (['nosuch.p = 1', 's/t/nosuch_cfg.p = 1', 'nosuch:\n  p = 1'],
                              ValueError),
     'unknown-reference': (['fa.p = @nosuch()', 'fa.p = [1, {"k": @a/nosuch}]',
-                           'fa.p = [1,\n  @nosuch()]'], ValueError),
-    'ambiguous-constant': (['fa.p = %AMBIG', 'fa.p = (1, %AMBIG)'], ValueError),
+                           'fa.p = [1,\n  @nosuch()]', 'fa.p = [\n  @nosuch\n]',
+                           'fa.p = [1,\n  {"k": (@s/nosuch()  # the last token on its line\n'
+                           '  , 2)},\n  3]'], ValueError),
+    'ambiguous-constant': (['fa.p = %AMBIG', 'fa.p = (1, %AMBIG)', 'fa.p = (1,\n  %AMBIG\n  )'],
+                           ValueError),
     'denylisted-parameter': (['fd.q = 1', 's/fd.q = 1'], ValueError),
     'bad-include': (["include 'no/such/file.gin'"], OSError),
     # "keeps its original exception type": importing a missing module raises ModuleNotFoundError
@@ -166,7 +169,7 @@ class Tree:
       base = os.path.join(tmp, 'c16pkg')
       os.makedirs(base, exist_ok=True)
       open(os.path.join(base, '__init__.py'), 'w').close()
-    self.names = [None if (i == 0 and config['root_as'] == 'string')
+    self.names = [None if (i == 0 and config['root_as'] in ('string', 'list', 'tuple'))
                   else os.path.join(base, f'f{i}.gin') for i in range(len(self.files))]
     self.refs = [n and (f'c16pkg/f{i}.gin' if config.get('pkgrel') else n)
                  for i, n in enumerate(self.names)]
@@ -214,8 +217,21 @@ class Tree:
   def write(self, faults=None, truncs=None):
     texts = {}
     for i in range(len(self.files)):
-      text, _ = self.render_file(i, (faults or {}).get(i), (truncs or {}).get(i))
+      text, spans = self.render_file(i, (faults or {}).get(i), (truncs or {}).get(i))
       texts[i] = text
+      if i == 0:
+        # the same text as a list with one entry per statement (filler lines go with the statement
+        # that follows them): "a list of individual parameter binding strings"
+        lines, entries, prev = text[:-1].split('\n'), [], 0
+        for first, last, _ in spans:
+          if first > len(lines):
+            break
+          end = min(last, len(lines))
+          entries.append('\n'.join(lines[prev:end]))
+          prev = end
+        if prev < len(lines) or not entries:
+          entries.append('\n'.join(lines[prev:]))
+        self.root_entries = entries
       if self.names[i] is not None:
         with open(self.names[i], 'w') as fh:
           fh.write(text)
@@ -235,6 +251,10 @@ class Tree:
 
 
 def parse_root(tree, texts):
+  if tree.config['root_as'] in ('list', 'tuple'):
+    # documented as equivalent to the newline-joined string
+    entries = tree.root_entries
+    return gin.parse_config(list(entries) if tree.config['root_as'] == 'list' else tuple(entries))
   if tree.names[0] is None:
     return gin.parse_config(texts[0])
   return gin.parse_config_file(tree.refs[0])
@@ -484,7 +504,10 @@ def _check(config, inj, labels, tmp):
     for depth, (ci, line) in enumerate(chain):
       name = tree.names[ci]
       if depth == 0 and kind in VALUE_LEVEL:
-        okay = any(n == name and first <= l <= last for n, l in got_chain)
+        # the line on which the statement begins, or (more precise, what Gin does) the line of the
+        # offending reference itself -- not some other line of the statement
+        ref_off = next(i for i, ln in enumerate(lines) if '@' in ln or '%AMBIG' in ln)
+        okay = any(n == name and l in (first, first + ref_off) for n, l in got_chain)
       else:
         okay = (name, line) in got_chain
       require(okay, 'error-location',
@@ -635,7 +658,7 @@ def strategy(draw):
     sel = draw(st.sampled_from(sorted(SELECTORS)))
     prior.append([draw(st.sampled_from(SCOPES)), sel, draw(st.sampled_from(SELECTORS[sel][1])),
                   'prior%d' % j])
-  return {'config': {'files': files, 'root_as': draw(st.sampled_from(['string', 'file'])),
+  return {'config': {'files': files, 'root_as': draw(st.sampled_from(['string', 'string', 'file', 'file', 'list', 'tuple'])),
                      'prior': prior, 'outer_scope': draw(st.sampled_from(['', '', 'outer', 'o/p'])),
                      'locked': locked, 'tape': draw(S.tapes(20)),
                      'pkgrel': draw(st.integers(0, 3)) == 0},
